@@ -71,6 +71,18 @@ def norm_guard(g):
     return (c, pol)
 
 
+def split_guard(g):
+    """A guard as a list of atomic guards in positive form: a true conjunction / a false disjunction is the list of its parts
+    (`if a and b:` == `if a: if b:`;  `if a or not b: continue` leaves (a, False), (b, True))."""
+    c, pol = norm_guard(g)
+    if isinstance(c, tuple) and len(c) == 3 and c[0] == "bool" and ((c[1] == "And" and pol) or (c[1] == "Or" and not pol)):
+        out = []
+        for x in c[2]:
+            out.extend(split_guard((x, pol)))
+        return out
+    return [(c, pol)]
+
+
 class Flow:
     def __init__(self, func: ast.FunctionDef, file: str = "", consts: dict | None = None,
                  self_name: str | None = None, keep_arms: bool = False, resolver=None, _depth: int = 0, _env: dict | None = None):
@@ -131,7 +143,10 @@ class Flow:
 
     # ---- helpers --------------------------------------------------------
     def _guards(self):
-        return tuple(norm_guard(g) for g in self.guards)
+        out = []
+        for g in self.guards:
+            out.extend(split_guard(g))
+        return tuple(out)
 
     def fact(self, kind, target, index, op, value, node, **extra):
         if kind in ("store", "augstore", "append", "remove", "mutate") and isinstance(target, str):
@@ -1231,3 +1246,51 @@ def expand_bvals(flow, v):
             break
         v = v2
     return v
+
+
+# ---------------------------------------------------------------------- propositional reasoning over guards
+
+def _bool_atoms(c, acc):
+    if isinstance(c, tuple) and len(c) == 3 and c[0] == "unop" and c[1] == "Not":
+        _bool_atoms(c[2], acc)
+    elif isinstance(c, tuple) and len(c) == 3 and c[0] == "bool":
+        for x in c[2]:
+            _bool_atoms(x, acc)
+    elif isinstance(c, tuple) and len(c) == 3 and c[0] == "cmp" and len(c[1]) == 1 and c[1][0] in _NEG_OP:
+        acc.add(("cmp", (_NEG_OP[c[1][0]],), c[2]))
+    else:
+        acc.add(c)
+
+
+def _bool_eval(c, env):
+    if isinstance(c, tuple) and len(c) == 3 and c[0] == "unop" and c[1] == "Not":
+        return not _bool_eval(c[2], env)
+    if isinstance(c, tuple) and len(c) == 3 and c[0] == "bool":
+        vals = [_bool_eval(x, env) for x in c[2]]
+        return all(vals) if c[1] == "And" else any(vals)
+    if isinstance(c, tuple) and len(c) == 3 and c[0] == "cmp" and len(c[1]) == 1 and c[1][0] in _NEG_OP:
+        return not env[("cmp", (_NEG_OP[c[1][0]],), c[2])]
+    return env[c]
+
+
+def guards_satisfiable(guards, extra=()):
+    """Is there a truth assignment of the atomic conditions under which every (cond, polarity) of `guards` and `extra` holds?
+    Atoms are whatever is not not/and/or (negative comparisons are the negation of their positive form)."""
+    import itertools
+    gs = [(simp(c), p) for c, p in list(guards) + list(extra)]
+    atoms = set()
+    for c, _ in gs:
+        _bool_atoms(c, atoms)
+    atoms = sorted(atoms, key=repr)
+    if len(atoms) > 12:
+        return True
+    for vals in itertools.product((False, True), repeat=len(atoms)):
+        env = dict(zip(atoms, vals))
+        if all(_bool_eval(c, env) == p for c, p in gs):
+            return True
+    return False
+
+
+def guards_imply(a, b):
+    """every path on which all guards of `a` hold also satisfies all guards of `b`"""
+    return all(not guards_satisfiable(a, [(c, not p)]) for c, p in b)
